@@ -58,7 +58,17 @@ func disableLater(t *testing.T, rec *ev.Rec) {
 						f1 = strings.ReplaceAll(first, "NAME", name)
 					}
 					_, _ = run(f1) // may fail at run time (e.g. len(1)); compiling it caches the builtin symbol
-					st.DisableBuiltin(name)
+					// one call may name several builtins, used by the session or not, in any order
+					switch n % 4 {
+					case 0:
+						st.DisableBuiltin(name)
+					case 1:
+						st.DisableBuiltin("isCallable", name) // a name the session never used comes first
+					case 2:
+						st.DisableBuiltin(name, "isCallable", "isIterable")
+					default:
+						st.DisableBuiltin("isIterable", "isCallable", name, "isSyncMap")
+					}
 					f2 := strings.ReplaceAll(second, "NAME", name)
 					if strings.Contains(second, "%d") {
 						f2 = strings.ReplaceAll(fmt.Sprintf(strings.ReplaceAll(second, "NAME", "@"), n+100000), "@", name)
